@@ -158,31 +158,48 @@ func R17Consumers(c *Ctx) {
 		}
 	}
 	// blocks that SetProfile replaces by an empty struct when the profile omits them are never nil afterwards
-	if sp := c.P.Func(PkgProfile, "Profile.SetProfile"); sp != nil {
-		for _, b := range sp.Blocks {
-			for _, in := range b.Instrs {
-				st, ok := in.(*ssa.Store)
-				if !ok {
+	if sp0 := c.P.Func(PkgProfile, "Profile.SetProfile"); sp0 != nil {
+		// the normalisation may sit in SetProfile itself or in an unexported helper it calls unconditionally
+		for _, sp := range HelperClosure(sp0, 2) {
+			if sp != sp0 {
+				// the helper must be called on SetProfile's success path: a call site in SetProfile's closure exists
+				called := false
+				for _, f := range HelperClosure(sp0, 2) {
+					EachCall(f, func(call ssa.CallInstruction) {
+						if call.Common().StaticCallee() == sp {
+							called = true
+						}
+					})
+				}
+				if !called {
 					continue
 				}
-				t, f, _, ok := FieldOf(st.Addr)
-				if !ok || !opt[t+"."+f] {
-					continue
-				}
-				if _, isNew := st.Val.(*ssa.Alloc); !isNew {
-					continue
-				}
-				// under `field == nil`, and the store's block joins into every later use: it is in the function's main line
-				under := false
-				for _, fct := range FactsAt(b) {
-					if bo, ok := fct.Cond.(*ssa.BinOp); ok && (isNilConst(bo.X) || isNilConst(bo.Y)) && DerivesFrom(bo.X, IsFieldLoad(t, f)) {
-						under = true
+			}
+			for _, b := range sp.Blocks {
+				for _, in := range b.Instrs {
+					st, ok := in.(*ssa.Store)
+					if !ok {
+						continue
 					}
-				}
-				// only on the success path (after the decode error was tested)
-				if under {
-					delete(opt, t+"."+f)
-					c.R.Ok("R1-nil-profile-blocks", FuncShort(sp), "normalise omitted block "+f, c.pos(st.Pos()), "an omitted "+f+" block is replaced by an empty one right after decoding", true)
+					t, f, _, ok := FieldOf(st.Addr)
+					if !ok || !opt[t+"."+f] {
+						continue
+					}
+					if _, isNew := st.Val.(*ssa.Alloc); !isNew {
+						continue
+					}
+					// under `field == nil`, and the store's block joins into every later use: it is in the function's main line
+					under := false
+					for _, fct := range FactsAt(b) {
+						if bo, ok := fct.Cond.(*ssa.BinOp); ok && (isNilConst(bo.X) || isNilConst(bo.Y)) && DerivesFrom(bo.X, IsFieldLoad(t, f)) {
+							under = true
+						}
+					}
+					// only on the success path (after the decode error was tested)
+					if under {
+						delete(opt, t+"."+f)
+						c.R.Ok("R1-nil-profile-blocks", FuncShort(sp), "normalise omitted block "+f, c.pos(st.Pos()), "an omitted "+f+" block is replaced by an empty one right after decoding", true)
+					}
 				}
 			}
 		}
